@@ -178,7 +178,13 @@ def run(prog: Program, rep, thorough: bool) -> None:
         flt = _mk_filter(ev, st, prog, seen_zero=Scalar(seen), current_flag=Scalar(init))
         rv = C.mk_vec(ev, st, prog, 'x', 'y', 'z')
         try:
-            tree, st = ev.run_func(czc, {czc.positional[0]: flt, czc.positional[1]: rv}, st)
+            extra = {}
+            for p_ in czc.positional[2:]:
+                if czc.default_of(p_) is None:
+                    # a further input of the check: an unknown of its own (what the verdict does with it is judged below)
+                    extra[p_] = C.mk_vec(ev, st, prog, f'{p_}.x', f'{p_}.y', f'{p_}.z') if 'vector' in p_.lower() or 'velocity' in p_.lower() \
+                        or 'position' in p_.lower() else S(f'${p_}')
+            tree, st = ev.run_func(czc, {czc.positional[0]: flt, czc.positional[1]: rv, **extra}, st)
         except Undecided as exc:
             raise AnalysisError(f'check_zero_crossing: {exc}') from exc
         problems = []
@@ -188,7 +194,8 @@ def run(prog: Program, rep, thorough: bool) -> None:
         from .c16 import reachable_leaves
         for t_ in {t for pth, _lf in leaves(tree) for t, _pol in pth}:
             if t_.rf is not None and not t_.rf.symbols() <= {'x', 'y', 'L'}:
-                problems.append(f'depends on {t_!r}')
+                problems.append(f'a crossing is accepted or not depending on {t_!r}, which is neither the height nor the sight line '
+                                f'x tan(look)')
             elif t_.rf is not None and 'y' in t_.rf.symbols() and not (t_.rf.equals(y - ref) or t_.rf.equals(ref - y)):
                 problems.append(f'a crossing test compares {t_!r}: not the height against the sight line x tan(look) exactly')
             elif t_.rf is not None and 'y' not in t_.rf.symbols() and not (t_.rf.equals(x) or t_.rf.equals(-x)):
